@@ -279,11 +279,19 @@ class World:
 
 
 # ------------------------------------------------------------------ replay of one history (in a forked child)
-def run_history(w, st, kinds):
-    """Returns list of mismatches (dicts)."""
+def run_history(w, st, kinds, use_between=False):
+    """Returns list of mismatches (dicts).  use_between: every class is USED (all behaviour probes, results discarded)
+    after every step but the last, so that anything an implementation remembers from a use - a memo table, a cache of a
+    split registry - meets the next registration."""
     hist = st['hist']
-    for op in hist:
+    for j, op in enumerate(hist):
         w.apply([tuple(x) if isinstance(x, list) and False else x for x in op])
+        if use_between and j + 1 < len(hist):
+            for name in reversed(list(w.cls)):      # subclasses before their bases: a use must not be served by the base's state
+                if name.endswith(('Constructor', 'Representer', 'Resolver')) or name not in st['beh'] or not isinstance(st['beh'][name], dict):
+                    continue
+                for p in st['beh'][name]:
+                    w.probe(name, p)
     defined = tlaval.setval(st['defined'])
     bad = []
     for name in defined:
@@ -341,6 +349,11 @@ def worker(args):
         res['n'] += 1
         try:
             bad, drift = run_history(w, st, kinds)
+            if not bad and len(st['hist']) >= 2:
+                w.reset()
+                bad, drift2 = run_history(w, st, kinds, use_between=True)
+                for b in bad:
+                    b['variant'] = 'every class used between the steps'
             d = {'bad': bad, 'drift': drift}
         except Exception:
             import traceback
